@@ -276,9 +276,9 @@ def get_app(app, iface, mode, directory, ctx, token):
     return inst
 
 
-def run_wsgi(inst, path):
+def run_wsgi(inst, path, root=""):
     environ = {
-        "REQUEST_METHOD": "GET", "SCRIPT_NAME": "", "QUERY_STRING": "",
+        "REQUEST_METHOD": "GET", "SCRIPT_NAME": root, "QUERY_STRING": "",
         "PATH_INFO": path.encode("utf-8", "surrogateescape").decode("latin-1"),
         "SERVER_NAME": HOST, "SERVER_PORT": "80", "SERVER_PROTOCOL": "HTTP/1.1", "HTTP_HOST": HOST,
         "wsgi.url_scheme": "http", "wsgi.version": (1, 0),
@@ -299,12 +299,12 @@ def run_wsgi(inst, path):
     return got["status"], loc, body
 
 
-def run_asgi(inst, path):
+def run_asgi(inst, path, root=""):
     global _loop
     if _loop is None:
         _loop = asyncio.new_event_loop()
     scope = {"type": "http", "asgi": {"version": "3.0"}, "http_version": "1.1", "method": "GET", "scheme": "http",
-             "path": path, "raw_path": b"", "root_path": "", "query_string": b"",
+             "path": path, "raw_path": b"", "root_path": root, "query_string": b"",
              "headers": [(b"host", HOST.encode())], "server": (HOST, 80), "client": ("127.0.0.1", 1)}
     msgs = []
 
@@ -325,8 +325,16 @@ def run_asgi(inst, path):
 
 
 def parse_line(line):
-    _, app, iface, mode, directory, ctx, path, token = line.split(" ")
+    _, app, iface, mode, directory, ctx, path, token = line.split(" ")[:8]
     return app, iface, mode, dec_text(directory), dec_text(ctx), dec_text(path), token
+
+
+def root_of(line):
+    """optional 9th token: the mount point the app is reached under (SCRIPT_NAME / scope["root_path"]); the
+    request path of the line is the path BELOW it, as Subpaths hands it over.  The model does not read it: the
+    files served depend on the path alone, and the redirect is "the same URL + '/'"."""
+    a = line.split(" ")
+    return dec_text(a[8]) if len(a) > 8 else ""
 
 
 def _impl(line):
@@ -340,17 +348,18 @@ def _impl(line):
     _rec["on"] = True
     try:
         try:
-            status, loc, body = (run_wsgi if iface == "wsgi" else run_asgi)(inst, path)
+            root = root_of(line)
+            status, loc, body = (run_wsgi if iface == "wsgi" else run_asgi)(inst, path, root)
         finally:
             _rec["on"] = False
             os.stat, os.lstat = _real_stat, _real_lstat
         if 300 <= status < 400:
             # "the same URL + '/'", modulo the percent-encoding of the Location header (C13)
-            want = "//" + HOST + quote(path + "/", safe=IRI_SAFE, errors="surrogateescape")
+            want = "//" + HOST + quote(root + path + "/", safe=IRI_SAFE, errors="surrogateescape")
             replaced = (path + "/").encode("utf-8", "surrogateescape").decode("utf-8", "replace")
             if loc == want:
                 res = "%d %s" % (status, enc(path + "/"))
-            elif iface == "wsgi" and replaced != path + "/" and loc == "//" + HOST + quote(replaced, safe=IRI_SAFE):
+            elif iface == "wsgi" and replaced != path + "/" and loc == "//" + HOST + quote(root + replaced, safe=IRI_SAFE):
                 # non-UTF-8 bytes of the path appear as U+FFFD in the Location (URL(environ=...) decodes
                 # PATH_INFO with errors="replace"): a redirect to a DIFFERENT url
                 res = "%d replaced" % status
@@ -691,7 +700,13 @@ def cases(rng, tier):
             if i == "wsgi" and not wsgi_ok(path):
                 continue
             yield mk(a, i, "abs", path, T_STD)
-    # 3. directory given relative / package-relative / in odd spellings
+    # 2b. the app reached under a mount point (SCRIPT_NAME / root_path non-empty), with request paths that begin
+    #     with the mount point's own name again (a directory of that name exists in the tree)
+    for root in ("/dir", "/outer", "/x", "/dir/dir"):
+        names = ["", "dir", "file.txt", "x.html", "index.html", "..", "outer", "x"]
+        for path in paths_upto(names, 3):
+            for a, i in VARIANTS:
+                yield mk(a, i, "abs", path, T_STD) + " " + enc(root)
     base = base_of(T_STD)
     spellings = [("rel", None), ("pkg", None), ("rel", "./root/"), ("rel", "../outer/./root"), ("rel", "rootX/../root"),
                  ("pkg", "./root"), ("pkg", "rootX/../root/"), ("abs", base + "/outer//root/"),
@@ -728,7 +743,13 @@ def cases(rng, tier):
             if rng.random() < 0.1:
                 path = path[1:]
             a, i = rng.choice(VARIANTS)
-            yield mk(a, i, rng.choice(["abs", "abs", "rel", "pkg"]), path, token)
+            line = mk(a, i, rng.choice(["abs", "abs", "rel", "pkg"]), path, token)
+            if rng.random() < 0.25 and names:
+                first = path.split("/")[1] if path.startswith("/") and len(path.split("/")) > 1 else ""
+                root = "/" + (first if first and first.isascii() and first.isalnum() and rng.random() < 0.7
+                              else rng.choice(["m", "assets"]))
+                line += " " + enc(root)
+            yield line
     # 6. random long paths on the standard tree, arbitrary characters in segments
     n_random = 3000 if not thorough else 60000
     chars = "ab./%\u00fc \\~\x00\x7f\u2028:;-"   # no '?', '#', TAB, CR, LF: urlsplit re-splits / strips them (C18)
